@@ -157,3 +157,40 @@ fn k_patch_block_roundtrip_2() { patch_block_roundtrip::<2, 128>(); }
 #[kani::unwind(116)]
 #[kani::stub(alloc::fmt::format, stub_fmt)]
 fn k_patch_block_roundtrip_113() { patch_block_roundtrip::<113, 256>(); }
+
+fn patch_block_compressed<const CL: u32, const PADDED: usize>() {
+    // a deflated block in a patch: header (size 16), compressed length CL, decompressed length 6, then the stream padded to a 128-byte unit
+    let mut img: [u8; 288] = kani::any();
+    put32(&mut img, 0, 16); put32(&mut img, 4, 0); put32(&mut img, 8, CL); put32(&mut img, 12, 6);
+    let ok: bool = kani::any();
+    unsafe { MODEL_OK = ok; }
+    let mut r = Cursor::new(&img[..]);
+    let res = read_data_block_patch(&mut r);
+    unsafe {
+        assert!(SEEN_IN_LEN == PADDED - 16, "the stream handed to inflate runs to the end of the block's 128-byte units");
+        assert!(SEEN_OUT_LEN == 6, "destination of decompressed_length bytes");
+        assert!(SEEN_IN[0] == img[16] && SEEN_IN[3] == img[19], "the bytes that follow the header");
+    }
+    assert!(r.position() == PADDED as u64, "cursor left at the block boundary ((compressed_length + 143) & !127 from the block start)");
+    match res {
+        Some(v) => { assert!(ok && v.len() == 6, "the decompressor's output"); core::mem::forget(v); }
+        None => assert!(!ok, "failed decompression yields nothing"),
+    }
+    kani::cover!(true, "reachable");
+}
+
+//@unit props=C03 label=S tier=quick fn=sqpack::read_data_block_patch bound="compressed block with compressed length 112 (header + stream end exactly on a 128-byte boundary), all contents; inflate modelled" stubs=no_header_decompress,fmt::format
+//@desc a deflated patch block occupies (compressed_length + 143) & !127 bytes from its start: for length 112 that is exactly 128, with no extra padding unit
+#[kani::proof]
+#[kani::unwind(8)]
+#[kani::stub(crate::compression::no_header_decompress, model_decompress)]
+#[kani::stub(alloc::fmt::format, stub_fmt)]
+fn k_patch_block_compressed_112() { patch_block_compressed::<112, 128>(); }
+
+//@unit props=C03 label=S tier=quick fn=sqpack::read_data_block_patch bound="compressed block with compressed length 113 (needs a second 128-byte unit), all contents; inflate modelled" stubs=no_header_decompress,fmt::format
+//@desc one byte more needs a second unit: 256 bytes
+#[kani::proof]
+#[kani::unwind(8)]
+#[kani::stub(crate::compression::no_header_decompress, model_decompress)]
+#[kani::stub(alloc::fmt::format, stub_fmt)]
+fn k_patch_block_compressed_113() { patch_block_compressed::<113, 256>(); }
